@@ -117,6 +117,7 @@ type stepEvent struct {
 	Keys    [][]string `json:"keys"`    // holder keys (paths in the root)
 	Parents [][]string `json:"parents"` // strip.one: the parents in the order the code processes them
 	At      int        `json:"at"`      // number of phase snapshots taken before this event
+	Oai     bool       `json:"oai"`     // import.new / name: the name was deduplicated (carries the OAIGen suffix)
 }
 
 type fullAnswers struct {
@@ -347,12 +348,14 @@ func opFlatten(req *Req) (any, map[string]string, error) {
 			case "import.new", "import.known":
 				se.Target = pj.ParseRef(hargs[0], "root")
 				se.Name = names.Abs(hargs[1])
+				se.Oai = strings.Contains(hargs[1], "OAIGen")
 				for _, k := range strings.Split(hargs[2], "\x00") {
 					se.Keys = append(se.Keys, parseKey(pj, k))
 				}
 			case "name":
 				se.Keys = [][]string{pj.ParseRef(hargs[0], "root")[1:]}
 				se.Name = names.Abs(hargs[1])
+				se.Oai = strings.Contains(hargs[1], "OAIGen")
 			case "pointer.top", "pointer.named", "pointer.expanded":
 				se.Keys = [][]string{parseKey(pj, hargs[0])}
 				se.Target = pj.ParseRef(hargs[1], "root")
